@@ -577,6 +577,7 @@ func TestVerifC06Table(t *testing.T) {
 	chrng := rep.Rand("chains")
 	arng := rep.Rand("addrspelling")
 	hrng := rep.Rand("hostsfiles")
+	yrng := rep.Rand("handedited")
 	hostsDir := t.TempDir()
 
 	for ti := 0; ti < nTables+len(scripted); ti++ {
@@ -623,6 +624,8 @@ func TestVerifC06Table(t *testing.T) {
 		var inFile []c06Entry
 		var withHosts []c06Obs
 		var hostsLines []string
+		var handEdited []c06Obs
+		var handText, handKinds string
 		failed := make([]bool, len(qs))
 
 		w.begin(ti)
@@ -705,6 +708,38 @@ func TestVerifC06Table(t *testing.T) {
 						hd.Close()
 					}
 					_ = hc.Close()
+				}
+			}
+			if k == 0 && ti%4 == 1 {
+				// The same table as a hand-edited configuration file can
+				// contain it: with empty list items and items that concern
+				// no name.  Either the start-up refuses the file, or every
+				// name resolves as with the table without those items.
+				handText, handKinds = c06HandEditedYAML(yrng.Intn, ord)
+				hd, items, perr, nerr := c06LoadYAML(handText, dataDir)
+				switch {
+				case perr != nil:
+					rep.Inconcl("the monitor's hand-edited YAML does not parse: " + perr.Error())
+				case nerr != nil:
+					rep.Event("hand_edited_files_refused_at_start:" + handKinds)
+				default:
+					rep.Event("hand_edited_files_accepted:" + handKinds)
+					rep.EventN("hand_edited_list_items", items)
+					handEdited = make([]c06Obs, len(qs))
+					for qi, q := range qs {
+						w.at(ord, 5, q.name, q.qt)
+						res, cerr, pan := c06Call(hd, setts, q.name, q.qt)
+						rep.Event("checkhost_calls")
+						if cerr != nil || pan != nil {
+							failed[qi] = true
+							rep.Violate("panic-or-error:checkhost-after-hand-edited-file", fmt.Sprintf("CheckHost failed: %v %v", pan, cerr),
+								map[string]any{"rewrites_section": handText, "query_name": q.name})
+
+							continue
+						}
+						handEdited[qi] = c06Observe(res)
+					}
+					hd.Close()
 				}
 			}
 			if k == 0 {
@@ -822,6 +857,18 @@ func TestVerifC06Table(t *testing.T) {
 							q.name, dns.TypeToString[q.qt], verifkit.JSON(o), verifkit.JSON(r)), m)
 				}
 			}
+			if handEdited != nil {
+				rep.Event("hand_edited_comparisons")
+				o, h := obs[qi][0], handEdited[qi]
+				if o.Pass != h.Pass || o.Canon != h.Canon || strings.Join(o.IPs, ",") != strings.Join(h.IPs, ",") {
+					m := wit(0)
+					m["rewrites_section_of_the_hand_edited_file"] = handText
+					m["answer_after_start_from_that_file"] = h
+					rep.Violate("hand-edited-config-file-changes-resolution:"+handKinds,
+						fmt.Sprintf("%s %s: the table answers %s; started from a file that holds the same items plus empty ones, the filter answers %s",
+							q.name, dns.TypeToString[q.qt], verifkit.JSON(o), verifkit.JSON(h)), m)
+				}
+			}
 			if withHosts != nil {
 				o, h := obs[qi][0], withHosts[qi]
 				inHosts := false
@@ -910,6 +957,18 @@ func TestVerifC06Table(t *testing.T) {
 		if k := "table_answer_unchanged_for_a_name_in_the_hosts_files:" + sh; rep.Events[k] < 100 {
 			rep.Inconcl(fmt.Sprintf("event %q seen %d times, fewer than 100", k, rep.Events[k]))
 		}
+	}
+	nHand, nNil := 0, 0
+	for k, v := range rep.Events {
+		if strings.HasPrefix(k, "hand_edited_files_") {
+			nHand += v
+			if strings.Contains(k, "nil-item") {
+				nNil += v
+			}
+		}
+	}
+	if nHand < 500 || nNil < 200 || rep.Events["hand_edited_comparisons"] < 5000 {
+		rep.Inconcl(fmt.Sprintf("too few hand-edited configuration files: %d, %d with empty items, %d comparisons", nHand, nNil, rep.Events["hand_edited_comparisons"]))
 	}
 	if rep.Classes["tables:chain:ending-cycle"] < 10 || rep.Events["restart_comparisons"] < 10000 {
 		rep.Inconcl("too few long chains ending in a cycle or too few restart comparisons")
